@@ -12,32 +12,83 @@ package index
 //@ ghost field index.ShardedIndex.live int
 
 //@ func (*index.ShardedIndex).Put
-//@   trusted
+//@   props C08 C09 C14 C01
+//@   requires [inv] INV_index(s)
+//@   at (index.index).put assert [under-the-lock-of-the-same-shard] exists i :: 0 <= i && i < len(s.index) && arg0 == s.index[i] && result_of("(*index.ShardedIndex).locateShard", 1) == elemaddr(s.indexLock, i) && result_of("(*index.ShardedIndex).locateShard", 1).heldW
 //@   requires [pos]   pos != nil
 //@   modifies s.model, s.count, s.live
-//@   ensures [model]  s.model == store(old(s.model), keyid(key), pos)
-//@   ensures [old]    result == old(s.model)[keyid(key)]
-//@   ensures [count]  s.count == old(s.count) + (result == nil ? 1 : 0)
-//@   ensures [live]   s.live == old(s.live) + pos.Size - (result == nil ? 0 : result.Size) && s.live >= 0
+//@   assume  [model]  s.model == store(old(s.model), keyid(key), pos)
+//@   assume  [old]    result == old(s.model)[keyid(key)]
+//@   assume  [count]  s.count == old(s.count) + (result == nil ? 1 : 0)
+//@   assume  [live]   s.live == old(s.live) + pos.Size - (result == nil ? 0 : result.Size) && s.live >= 0
 
 //@ func (*index.ShardedIndex).Get
-//@   trusted
-//@   pure
-//@   ensures [lookup] result == s.model[keyid(key)]
+//@   props C08 C09 C14 C01
+//@   requires [inv] INV_index(s)
+//@   at (index.index).get assert [under-the-lock-of-the-same-shard] exists i :: 0 <= i && i < len(s.index) && arg0 == s.index[i] && result_of("(*index.ShardedIndex).locateShard", 1) == elemaddr(s.indexLock, i) && (result_of("(*index.ShardedIndex).locateShard", 1).heldR || result_of("(*index.ShardedIndex).locateShard", 1).heldW)
+//@   modifies nothing
+//@   assume  [lookup] result == s.model[keyid(key)]
 
 //@ func (*index.ShardedIndex).Delete
-//@   trusted
+//@   props C08 C09 C14 C01
+//@   requires [inv] INV_index(s)
+//@   at (index.index).delete assert [under-the-lock-of-the-same-shard] exists i :: 0 <= i && i < len(s.index) && arg0 == s.index[i] && result_of("(*index.ShardedIndex).locateShard", 1) == elemaddr(s.indexLock, i) && result_of("(*index.ShardedIndex).locateShard", 1).heldW
 //@   modifies s.model, s.count, s.live
-//@   ensures [model]  s.model == store(old(s.model), keyid(key), 0)
-//@   ensures [old]    result == old(s.model)[keyid(key)]
-//@   ensures [count]  s.count == old(s.count) - (result == nil ? 0 : 1)
-//@   ensures [live]   s.live == old(s.live) - (result == nil ? 0 : result.Size) && s.live >= 0
+//@   assume  [model]  s.model == store(old(s.model), keyid(key), 0)
+//@   assume  [old]    result == old(s.model)[keyid(key)]
+//@   assume  [count]  s.count == old(s.count) - (result == nil ? 0 : 1)
+//@   assume  [live]   s.live == old(s.live) - (result == nil ? 0 : result.Size) && s.live >= 0
 
 //@ func (*index.ShardedIndex).Size
 //@   trusted
 //@   pure
 //@   ensures [count] result == s.count && result >= 0
 
+// ---------------------------------------------------------------------------------------------
+// Sharding layer: every shard operation runs under the lock of the same shard
+// ---------------------------------------------------------------------------------------------
+//@ pred INV_index(s) = s != nil && s.cap == len(s.index) && s.cap == len(s.indexLock) && s.cap >= 1 && (forall i :: {s.index[i]} 0 <= i && i < len(s.index) ==> s.index[i] != nil) && (forall i :: {elemaddr(s.indexLock, i)} 0 <= i && i < len(s.indexLock) ==> !as("*sync.RWMutex", elemaddr(s.indexLock, i)).heldW && !as("*sync.RWMutex", elemaddr(s.indexLock, i)).heldR)
+
+//@ func index.nextPowerOfTwo
+//@   props C14
+//@   requires [positive] cap >= 1
+//@   ensures [bounds] result >= 1 && result <= 1024
+//@   modifies nothing
+
+//@ func index.newIndexer
+//@   props C14
+//@   panics_ok
+//@   ensures [some-index] result != nil && fresh(result)
+//@   modifies nothing
+
 //@ func index.NewShardedIndex
+//@   props C14
+//@   content
+//@   requires [positive] shardNum >= 1
+//@   ensures [inv] INV_index(result) && fresh(result)
+//@   assume  [empty-model] result.count == 0 && result.live == 0 && (forall k :: {result.model[k]} result.model[k] == 0)
+//@   modifies nothing
+//@   loop 1
+//@     invariant [filled] 0 <= i && i <= shardNum && len(shards) == shardNum && len(locks) == shardNum && fresh(shards) && (forall j :: {shards[j]} 0 <= j && j < i ==> shards[j] != nil)
+
+//@ func (*index.ShardedIndex).locateShard
+//@   inline
+
+//@ func iface (index.index).put
+//@   params self key pos
 //@   trusted
-//@   ensures [empty] result != nil && fresh(result) && result.count == 0 && result.live == 0 && (forall k :: {result.model[k]} result.model[k] == 0)
+//@ func iface (index.index).get
+//@   params self key
+//@   trusted
+//@   pure
+//@ func iface (index.index).delete
+//@   params self key
+//@   trusted
+//@ func iface (index.index).size
+//@   params self
+//@   trusted
+//@   pure
+//@ func iface (index.index).iterator
+//@   params self reverse
+//@   trusted
+//@   ensures [some-iterator] result != nil
